@@ -55,7 +55,8 @@ ASSUMPTIONS = [
 
 BOTH = ('unknown-fn', 'xlfn', 'xlfn-like-known', 'undefined-name', 'ref-literal',
         'ref-literal-arg', 'unknown-fn-nested', 'name-unknown-fn',
-        'ref-literal-prefixed', 'ref-literal-operand', 'name-ref-literal-operand')
+        'ref-literal-prefixed', 'ref-literal-operand', 'name-ref-literal-operand',
+        'name-of-undefined-name')
 ANY_ERROR = {'#REF!', '#VALUE!', '#NULL!', '#NAME?'}
 FILES = ('missing-sheet', 'missing-sheet-range', 'missing-book', 'empty-file',
          'truncated-file', 'directory', 'garbage-file', 'name-missing-sheet',
@@ -87,6 +88,11 @@ def fault_tree(kind, rng, desc, b):
         if rng.random() < 0.5:
             return ['raw', nm, "'[%s]'!%s" % (bk, nm)], REF_OR_NAME
         return ['bin', '*', ['raw', nm, "'[%s]'!%s" % (bk, nm)], ['lit', 2.0]], REF_OR_NAME
+    if kind == 'name-of-undefined-name':
+        # a defined name that stands for a name nobody defines
+        nm = 'ALIAS_%d' % (len(desc['names']) + 1)
+        desc['names'][nm] = ['val', b, ['raw', 'No_Such_Target', "'[%s]'!No_Such_Target" % bk]]
+        return ['bin', '+', ['name', nm], ['lit', 1.0]], REF_OR_NAME
     if kind == 'name-formula-missing-sheet':
         # the missing sheet sits inside a formula-valued name
         nm = 'ADJ_%d' % (len(desc['names']) + 1)
@@ -271,6 +277,11 @@ def _load(desc, path, tag, stage, lazy=False):
     if path == 'dict':
         stage[0] = 'from_dict'
         m = formulas.ExcelModel().from_dict(gw.to_dict(desc))
+        if any(n.startswith('ALIAS_') for n in desc.get('names', {})):
+            # a name that stands for an undefined name is resolved by the
+            # completion step (from_dict alone does not complete a model)
+            stage[0] = 'finish (complete)'
+            m.finish()
     else:
         import shutil
         from .. import worker
